@@ -260,6 +260,9 @@ pub mod processor;
 pub mod streams;
 #[cfg(any(test, feature = "test_utils"))]
 pub mod test_utils;
+#[cfg(p2panda_p2panda_verif)]
+#[doc(hidden)]
+pub mod verif_ephemeral;
 
 // Useful external types we want to re-export for convenience.
 #[doc(no_inline)]
